@@ -362,8 +362,12 @@ class ClientWebSocketResponse(Generic[_DecodeText]):
             self._response.close()
             raise
         except Exception as exc:
-            self._close_code = WSCloseCode.ABNORMAL_CLOSURE
-            self._exception = exc
+            # _close_code was unset when the wait began: if it is set now, a
+            # concurrent receive() took the peer's Close frame (and left the
+            # reader empty for us) - that is the end of the handshake.
+            if not self._close_code:
+                self._close_code = WSCloseCode.ABNORMAL_CLOSURE
+                self._exception = exc
             self._response.close()
             return True
 
